@@ -21,7 +21,7 @@ RULE = ("A base case from the planted-structure generator (all cell / pattern / 
 ASSUMPTIONS = ["a difference confined to grey groups (neither clear-in nor clear-out under both runs' hints) is tolerated",
                "supercell sizes are bounded to ~300 atoms in the generated part (cost)"]
 
-XF_KINDS = ["shift", "shift", "permute", "permute-in-place", "pattern-motion", "pattern-motion", "hints", "seeds", "replicate", "replicate"]
+XF_KINDS = ["shift", "shift", "permute", "permute-in-place", "rotate-crystal", "pattern-motion", "pattern-motion", "hints", "seeds", "replicate", "replicate"]
 
 
 @st.composite
@@ -53,6 +53,15 @@ def xf_case(draw):
         xf["v"] = v
     elif kind in ("permute", "permute-in-place"):
         xf["perm"] = list(draw(st.permutations(range(N))))
+    elif kind == "rotate-crystal":
+        # the whole crystal (cell vectors and atoms) rotated: same lattice parameters, another orientation
+        R = geom.axis_rotations()[draw(st.integers(1, 23))] if draw(st.booleans()) else np.asarray(draw(gen_geom.random_rotation()))
+        c2 = cell @ np.asarray(R).T
+        if np.abs(c2 - np.diag(np.diag(c2))).max() < 1e-12 and np.diag(c2).min() < 0:
+            # a diagonal cell matrix with a negative entry (box along -y) is not a supported way to write an orthorhombic
+            # cell (every loader produces positive diagonals): use a generic orientation instead
+            R = geom.quat_to_matrix((0.3, 0.5, 0.7, 0.4))
+        xf["R"] = np.asarray(R).tolist()
     elif kind == "pattern-motion":
         R, pcls = draw(gen_geom.pose(base["ppos"], classes=["axis", "axis", "flip", "random", "random", "near-parallel", "near-antiparallel"]))
         xf["R"] = np.asarray(R).tolist()
@@ -130,6 +139,11 @@ def run_transformed(case, s, p, xf, stats):
         s.atom_types[:] = np.array([types.index(case["sels"][k]) for k in perm])
         idx = mf.find(s, p, atol, hints, seeds, what="search-after-in-place-relisting")
         return [tuple(sorted(perm[int(x)] for x in m)) for m in idx], 1, hints
+    if kind == "rotate-crystal":
+        R = np.array(xf["R"])
+        s2 = mf.atoms_from(np.array(case["spos"]) @ R.T, case["sels"], cell @ R.T)
+        idx = mf.find(s2, p, atol, hints, seeds, what="search-in-rotated-crystal")
+        return [tuple(sorted(int(x) for x in m)) for m in idx], 1, hints
     if kind == "pattern-motion":
         pp = np.array(case["ppos"]) @ np.array(xf["R"]).T + np.array(xf["t"])
         p2 = mf.atoms_from(pp, case["pels"])
